@@ -7,7 +7,7 @@ EXTENDS USimProps, Json
 VARIABLES prog, exp
 varsW == <<vars, prog, exp>>
 
-IsOp(x) == x.e = "b" /\ ~("implicit" \in DOMAIN x /\ x.implicit)
+IsOp(x) == x.e \in {"b", "p"} /\ ~("implicit" \in DOMAIN x /\ x.implicit)
 OpsIn(evs) == SelectSeq(evs, IsOp)
 InitW == Init /\ prog = [a \in Acts |-> <<>>] /\ exp = <<>>
 NextW == /\ Next
@@ -16,5 +16,7 @@ NextW == /\ Next
 SpecW == InitW /\ [][NextW]_varsW
 View == vars
 Terminal == fault # "" \/ Quiescent
-Emit == Terminal => PrintT(<<"W", ToJson([prog |-> prog, exp |-> exp, fault |-> fault, now |-> now])>>)
+\* one program for every distinct state reached right after a client operation (and every terminal state)
+EmitOps == (Terminal \/ OpsIn(ev) # <<>>) => PrintT(<<"W", ToJson([prog |-> prog, exp |-> exp, fault |-> fault, now |-> now, term |-> Terminal])>>)
+Emit == Terminal => PrintT(<<"W", ToJson([prog |-> prog, exp |-> exp, fault |-> fault, now |-> now, term |-> TRUE])>>)
 =============================================================================
